@@ -21,6 +21,7 @@ type FnExec struct {
 	paths     int
 	pathCap   int
 	heapSorts map[string]string
+	vacSeen   map[string]int
 	ords      map[*ssa.Function]map[ssa.Instruction]string
 	// evidence notes
 	inlined  map[string]bool
@@ -85,6 +86,30 @@ func (fx *FnExec) emit(st *State, fr *frame, kind, detail string, goal Term, pro
 	}
 	o := &Obligation{Name: name, Kind: kind, Fn: shortFn(fx.fn), Props: props, Assumes: append([]Term(nil), st.pc...), Goal: goal, Path: st.pathString(), Src: src}
 	fx.obls = append(fx.obls, o)
+}
+
+// vacuityStep guards one assumption step (the ensures of a callee's contract,
+// loop invariants after the havoc, monitor invariants at Lock, an explicit
+// assume): if the path condition is contradictory after the step but was not
+// before it, what was assumed is inconsistent and everything proved after it
+// on this path would be vacuous. At most two path instances per site.
+func (fx *FnExec) vacuityStep(st *State, fr *frame, site string, preLen int) {
+	if preLen >= len(st.pc) {
+		return
+	}
+	name := shortFn(fx.fn) + "#vacuity:" + site
+	if fr != nil && fr.tag != "" {
+		name += "@" + fr.tag
+	}
+	if fx.vacSeen == nil {
+		fx.vacSeen = map[string]int{}
+	}
+	if fx.vacSeen[name] >= 2 {
+		return
+	}
+	fx.vacSeen[name]++
+	fx.obls = append(fx.obls, &Obligation{Name: name, Kind: "vacuity", Fn: shortFn(fx.fn), Assumes: append([]Term(nil), st.pc...),
+		Goal: "false", Invert: true, PreLen: preLen, Path: st.pathString()})
 }
 
 func (fx *FnExec) globalConst(pkg, name, srt string) Term {
